@@ -673,8 +673,6 @@ impl<'a, const BIT: bool> BitVectorBitPositionsIter<'a, BIT> {
 
         let cur_word = cur_word >> l;
 
-        dbg!(pos, l);
-
         BitVectorBitPositionsIter {
             data,
             n_bits,
